@@ -13,23 +13,6 @@ func (r *Reader) ReadMetadata() (err error) {
 	if err != nil {
 		return errors.Wrapf(err, "ReadMetadata")
 	}
-	// Boxes that are not interpreted (free, skip, vendor boxes) may stand in front
-	// of the box that holds the metadata: they are skipped, so that the callers'
-	// fixed number of calls reaches moov / meta whatever precedes it.
-	for b.boxType != typeMdat && b.boxType != typeMeta && b.boxType != typeMoov && b.boxType != typeUUID {
-		if logLevelInfo() {
-			logInfo().Object("box", b).Send()
-		}
-		if err = b.close(); err != nil {
-			if logLevelError() {
-				logError().Object("box", b).Err(err).Send()
-			}
-			return err
-		}
-		if b, err = r.readBox(); err != nil {
-			return errors.Wrapf(err, "ReadMetadata")
-		}
-	}
 	switch b.boxType {
 	case typeMdat:
 		err = r.readMdat(&b)
